@@ -58,7 +58,7 @@ ENGINES.append({"name": "lock", "path": "lib/eng_lock.py", "serves_properties": 
                 "kind_free_text": "Mv2Lock TLA+ model (processes, inodes, flock table, copy-and-rename commit) checked exhaustively; transition tour + random schedules stepped on real handles with an independent flock probe; recordings validated by TLC (Trace_Mv2Lock)"})
 ENGINES.append({"name": "func", "path": "lib/eng_func.py", "serves_properties": ["C31", "C32", "C35", "C37"],
                 "kind_free_text": "TLA+ transcriptions of self-contained algorithms (FooterScan, QueryLang, Snippet, Adaptive) model-checked against the property's own statement; abstract cases executed on the real functions and judged by TLC (Trace_Func)"})
-ENGINES.append({"name": "disk", "path": "lib/eng_disk.py", "serves_properties": ["C02", "C03", "C04", "C22"],
+ENGINES.append({"name": "disk", "path": "lib/eng_disk.py", "serves_properties": ["C02", "C03", "C04", "C20", "C22"],
                 "kind_free_text": "LD_PRELOAD recorder of file mutations; offline reconstruction of every process-crash and sampled power-loss directory; real recovery (open, second open, verify, doctor, read-only) on each; crash events validated by TLC against Mv2Core (TCrash)"})
 ENGINES.append({"name": "query", "path": "lib/eng_query.py", "serves_properties": ["C08", "C09", "C10", "C11", "C12", "C13", "C16", "C28"],
                 "kind_free_text": "seeded corpora and query batteries on the real Memvid in six phases (pre-commit, committed, after deletes/updates, reopened rw/ro, after doctor rebuild); every query call is a trace event validated by TLC against Mv2Core + Mv2Query contracts"})
@@ -98,6 +98,7 @@ CLAIMED = {
     "C02": _disk("Every file-system mutation of every call in the recorded histories (create, put incl. chunked and WAL-growing, update, delete, commit, drop, apply_ticket, vacuum, doctor, open-time recovery) is a crash point: the directory after that prefix of operations is rebuilt offline, the real Memvid::open runs on it, and TLC requires the recovered frame table (ids, URIs, status, payload ids, embeddings, links) to be the table before or the table after the in-flight call, open not to fail, and the ticket to be one of the two."),
     "C03": _disk("At sampled file operations the directory a power loss could leave is rebuilt: un-synced writes of an inode dropped entirely, cut at every prefix, with any single one missing, or with the last one torn at half; un-synced renames lost or kept; the other inodes durable or volatile. The real open runs on each and TLC requires the same two-state rule, which implies that every call that returned (its log record or commit was fsynced) is present.", "Ordering obligations are not stated separately: a missing fsync shows up as a power-loss state that loses an acknowledged call."),
     "C04": _disk("Histories leave pending log records (handle lost), then open: every mutation of that recovery is a crash point (process and power), judged as above with the open as the in-flight call; after every successful recovery the file is closed and opened again and the frame table must not change (second_same)."),
+    "C20": _disk("The committed, closed files two histories end with are corrupted: one byte flipped at sampled offsets of every region class (each header field, the log, payload and index data, TOC, footer), each class zeroed entirely / in its first half, and truncation at every class boundary and midpoint. The real open, reads of every frame (canonical payload, blob reader, embedding), timeline, open_read_only and verify(deep) run on each; TLC requires every read to equal the specification's value or to fail, and verify not to report Passed otherwise.", "Sampled (6 offsets per class in the quick tier, 40 in the thorough tier), not every byte. Search results over corrupted index segments are not compared."),
     "C22": _disk("Every reconstructed directory (crash-left, power-loss, torn) is fed to open, a second open, timeline, verify, doctor + verify + doctor + open on a copy, and open_read_only + verify on a copy, each under catch_unwind with a 60 s watchdog; TLC rejects any recording in which one of them panicked or hung.", "Claimed for the specification-generated family of files only (DESIGN 6 C22): unstructured random bytes are not generated by this technique."),
     "C09": _query("Single-word queries for every vocabulary word, with and without the sketch pre-filter, top_k above the number of matches: TLC computes from the specification's frame table the set of committed active documents containing the word and requires every one of them among the hits (live, reopened read-write and read-only, after doctor)."),
     "C10": _query("For every hit of every query (single words, boolean expressions printed from random ASTs with NOT/AND/OR/implicit AND/parentheses, tag terms, uri filter): the frame exists and is active in the specification's table, the document's atoms satisfy the query under the model-checked QueryLang semantics, ranks are 1..n, n <= top_k, the hit text equals the frame text at the hit range, the range is non-empty and inside the chunk range."),
